@@ -23,6 +23,13 @@
    repaired in /repo and therefore not guarded: "create('T.bogus') returns T"
    and "create('zz:T') raises a bare Exception" (create_unknown_raises,
    create_undeclared_prefix_raises).
+   Element refs, named groups, choices with compound branches, anonymous and
+   simpleContent types are inside the model and the theorems; a LOCAL element
+   name spelled without its path (suds' deep search finds some of them) is
+   where the specification makes no claim (deep_search_finds_local_names_only).
+   filled_object_vs_dict is the clause "filling such an object and passing it
+   yields the same request as passing the equivalent dict", over this model
+   and the marshaller model of C01 together.
    Strings that are not spellings ("T..x", "T.") are outside the quantifier;
    the model shows they are still accepted (malformed_path_accepted). *)
 From SV Require C01.Marshal.
